@@ -729,7 +729,11 @@ func (env *SpecEnv) call(c *ast.CallExpr) Val {
 			return boolVal(env.sameElems(a, b))
 		case "u8at": // u8at(s, i): byte i of slice s
 			s, i := env.expr(c.Args[0]), env.expr(c.Args[1])
+			fc.byteAxiom(fc.elemArray(env.st, s))
 			return intVal(types.Typ[types.Int], tSel(tSel(fc.elemArray(env.st, s), s.Arr), tAdd(s.Off, i.S)))
+		case "bytestr": // the string made of the bytes of a slice (Go's string(b))
+			b := env.expr(c.Args[0])
+			return strVal(types.Typ[types.String], sx("str_of_bytes", tSel(fc.elemArray(env.st, b), b.Arr), b.Off, b.Len))
 		case "be16": // big-endian 16-bit value at s[i:]
 			s, i := env.expr(c.Args[0]), env.expr(c.Args[1])
 			return intVal(types.Typ[types.Int], beTerm(fc, env.st, s, i.S, 2))
@@ -863,7 +867,14 @@ func namedOf(t types.Type) *types.Named {
 	return n
 }
 
+// byteAxiom: every element of a byte array version is a byte (heap
+// well-typedness; all stores write wrapped values).
+func (fc *FnCtx) byteAxiom(m string) {
+	fc.sc.assume("(forall ((a Int) (i Int)) (! (inr (select (select " + m + " a) i) 0 255) :pattern ((select (select " + m + " a) i))))")
+}
+
 func beTerm(fc *FnCtx, st *State, s Val, i string, n int) string {
+	fc.byteAxiom(fc.elemArray(st, s))
 	inner := tSel(fc.elemArray(st, s), s.Arr)
 	t := "0"
 	for k := 0; k < n; k++ {
